@@ -652,8 +652,7 @@ def floors(tier, counters, evaluations):
                 miss.append("%s/%s inputs: only %d solutions" % (m, mode, counters.get("solutions:%s:%s" % (m, mode), 0)))
     if counters.get("checked_on_jitter", 0) < (60 if tier == "quick" else 600):
         miss.append("only %d solutions checked on the jitter" % counters.get("checked_on_jitter", 0))
-    if counters.get("solutions_verified:deciding_read_has_symbolic_address", 0) + \
-            counters.get("failures", 0) < (10 if tier == "quick" else 100):
+    if counters.get("solutions_verified:deciding_read_has_symbolic_address", 0) < (10 if tier == "quick" else 100):
         miss.append("only %d solutions whose deciding read has an input-dependent address" % counters.get(
             "solutions:deciding_read_has_symbolic_address", 0))
     for where in ("last", "first", "absent"):
